@@ -214,14 +214,32 @@ func (cel *CryptoAgileLog) Unmarshal(r io.Reader) error {
 	}
 	for {
 		evt := &TCGPCREvent2{}
-		if err := littleRead(r, "Event", evt); err != nil {
+		cr := &countingReader{r: r}
+		if err := littleRead(cr, "Event", evt); err != nil {
 			if errors.Is(err, io.EOF) {
-				return nil
+				// The log ends where an event would start. An end of input after some of the event's
+				// bytes is a truncated log, not a shorter one.
+				if cr.n == 0 {
+					return nil
+				}
+				return fmt.Errorf("event log ends %d bytes into event %d: %v", cr.n, len(cel.Events), err)
 			}
 			return err
 		}
 		cel.Events = append(cel.Events, evt)
 	}
+}
+
+// countingReader counts the bytes read through it.
+type countingReader struct {
+	r io.Reader
+	n int
+}
+
+func (c *countingReader) Read(p []byte) (int, error) {
+	n, err := c.r.Read(p)
+	c.n += n
+	return n, err
 }
 
 // Marshal writes a CryptoAgileLog to the given writer
